@@ -1,4 +1,396 @@
-import CamVerif.Proofs.C20Raw
+/-
+Helper lemmas for C20, part 4: the generated bit-field code (`mask`, `min`, `max`,
+`masked_int`, `parse`, `write`).
+
+Strategy: the model functions take `lsb msb : Nat`.  They are re-expressed with `BitVec`
+shift amounts (primed versions, generic in the width), the word-level theorem is proved per
+integer width (8/16/32/64) by `bv_decide` with symbolic `lsb`, `msb`, old word and value, and
+the macro-time `i64` `min`/`max` are bridged by exhaustive kernel evaluation over all
+`(lsb, msb)` pairs of the width.
+-/
+import CamVerif.Proofs.C20Typed
 import Std.Tactic.BVDecide
 namespace CamVerif.Memory
+variable {w : Nat}
+
+/-! ### Independent specification -/
+
+/-- the bits `lsb ..= msb` of a `w`-bit word -/
+def specMask (w lsb msb : Nat) : BitVec w := (BitVec.allOnes w >>> (w - 1 - msb + lsb)) <<< lsb
+
+theorem specMask_bit (lsb msb i : Nat) (hm : msb < w) (hi : i < w) :
+    (specMask w lsb msb).getLsbD i = (decide (lsb ≤ i) && decide (i ≤ msb)) := by
+  simp only [specMask, BitVec.getLsbD_shiftLeft, BitVec.getLsbD_ushiftRight, BitVec.getLsbD_allOnes]
+  by_cases h1 : lsb ≤ i <;> by_cases h2 : i ≤ msb <;> simp [h1, h2, hi] <;> omega
+
+/-! ### Versions with `BitVec` shift amounts -/
+
+def wm1 (w : Nat) : BitVec w := BitVec.ofNat w (w - 1)
+def wm2 (w : Nat) : BitVec w := BitVec.ofNat w (w - 2)
+
+def maskU' (l m : BitVec w) : BitVec w :=
+  (if m = wm1 w then BitVec.allOnes w else (1#w <<< (m + 1#w)) - 1#w) &&& ~~~((1#w <<< l) - 1#w)
+
+def maskS' (l m : BitVec w) : BitVec w :=
+  (if m = wm1 w then BitVec.allOnes w else if m = wm2 w then intMaxBV w
+    else (1#w <<< (m + 1#w)) - 1#w) &&&
+  (if l = wm1 w then intMinBV w else ~~~((1#w <<< l) - 1#w))
+
+def mask' (sg : Bool) (l m : BitVec w) : BitVec w := if sg then maskS' l m else maskU' l m
+
+/-- `min()` / `max()` of the generated code as words -/
+def minW (sg : Bool) (w lsb msb : Nat) : BitVec w :=
+  if sg then -(1#w <<< (msb - lsb)) else 0#w
+def maxW (sg : Bool) (w lsb msb : Nat) : BitVec w :=
+  if sg then (1#w <<< (msb - lsb)) - 1#w
+  else if msb - lsb = w - 1 then BitVec.allOnes w else (1#w <<< (msb - lsb + 1)) - 1#w
+
+def min' (sg : Bool) (l m : BitVec w) : BitVec w := if sg then -(1#w <<< (m - l)) else 0#w
+def max' (sg : Bool) (l m : BitVec w) : BitVec w :=
+  if sg then (1#w <<< (m - l)) - 1#w
+  else if m - l = wm1 w then BitVec.allOnes w else (1#w <<< (m - l + 1#w)) - 1#w
+
+def extract' (sg : Bool) (l m value : BitVec w) : BitVec w :=
+  let mask := mask' sg l m
+  let v := value &&& mask
+  if sg then
+    let v := v.sshiftRight' l
+    if (1#w <<< (m - l)) &&& v ≠ 0#w then v ||| (BitVec.allOnes w ^^^ mask.sshiftRight' l) else v
+  else v >>> l
+
+def spec' (l m : BitVec w) : BitVec w := (BitVec.allOnes w >>> (wm1 w - m + l)) <<< l
+
+/-! ### Bridging `Nat` positions to `BitVec` positions (generic in the width) -/
+
+theorem lt_pow (w : Nat) : w < 2 ^ w := Nat.lt_two_pow_self
+
+theorem eq_wm1 (m : BitVec w) : (w - 1 = m.toNat) ↔ m = wm1 w := by
+  have := lt_pow w
+  rw [← BitVec.toNat_inj, wm1, BitVec.toNat_ofNat, Nat.mod_eq_of_lt (by omega)]
+  omega
+
+theorem eq_wm1' (m : BitVec w) : (m.toNat = w - 1) ↔ m = wm1 w := by
+  rw [← eq_wm1]; omega
+
+theorem eq_wm2 (m : BitVec w) : (w - 2 = m.toNat) ↔ m = wm2 w := by
+  have := lt_pow w
+  rw [← BitVec.toNat_inj, wm2, BitVec.toNat_ofNat, Nat.mod_eq_of_lt (by omega)]
+  omega
+
+theorem toNat_succ (m : BitVec w) (hm : m.toNat < w) : (m + 1#w).toNat = m.toNat + 1 := by
+  have := lt_pow w
+  rw [BitVec.toNat_add, BitVec.toNat_ofNat]
+  have h1 : 1 % 2 ^ w = 1 := Nat.mod_eq_of_lt (by omega)
+  rw [h1, Nat.mod_eq_of_lt (by omega)]
+
+theorem shl_succ (x m : BitVec w) (hm : m.toNat < w) : x <<< (m.toNat + 1) = x <<< (m + 1#w) := by
+  rw [BitVec.shiftLeft_eq' (y := m + 1#w), toNat_succ m hm]
+
+theorem toNat_sub' (l m : BitVec w) (h : l.toNat ≤ m.toNat) : (m - l).toNat = m.toNat - l.toNat :=
+  BitVec.toNat_sub_of_le (BitVec.le_def.mpr h)
+
+theorem bridge_maskU (l m : BitVec w) (hm : m.toNat < w) :
+    bfMaskU w l.toNat m.toNat = maskU' l m := by
+  simp only [bfMaskU, maskU', eq_wm1, shl_succ _ m hm, ← BitVec.shiftLeft_eq']
+
+theorem bridge_maskS (l m : BitVec w) (hm : m.toNat < w) :
+    bfMaskS w l.toNat m.toNat = maskS' l m := by
+  simp only [bfMaskS, maskS', eq_wm1, eq_wm2, shl_succ _ m hm, ← BitVec.shiftLeft_eq']
+
+theorem bridge_mask (sg : Bool) (l m : BitVec w) (hm : m.toNat < w) :
+    bfMask sg w l.toNat m.toNat = mask' sg l m := by
+  simp only [bfMask, mask', bridge_maskU l m hm, bridge_maskS l m hm]
+
+theorem bridge_min (sg : Bool) (l m : BitVec w) (h : l.toNat ≤ m.toNat) :
+    minW sg w l.toNat m.toNat = min' sg l m := by
+  simp only [minW, min', BitVec.shiftLeft_eq' (y := m - l), toNat_sub' l m h]
+
+theorem bridge_max (sg : Bool) (l m : BitVec w) (h : l.toNat ≤ m.toNat) (hm : m.toNat < w) :
+    maxW sg w l.toNat m.toNat = max' sg l m := by
+  have h2 : (m - l).toNat < w := by rw [toNat_sub' l m h]; omega
+  simp only [maxW, max', BitVec.shiftLeft_eq' (y := m - l), BitVec.shiftLeft_eq' (y := m - l + 1#w),
+    toNat_succ (m - l) h2, ← eq_wm1', toNat_sub' l m h]
+
+theorem bridge_extract (sg : Bool) (l m value : BitVec w) (h : l.toNat ≤ m.toNat) (hm : m.toNat < w) :
+    bfExtract sg w l.toNat m.toNat value = extract' sg l m value := by
+  simp only [bfExtract, extract', bridge_mask sg l m hm, BitVec.sshiftRight_eq',
+    BitVec.ushiftRight_eq', BitVec.shiftLeft_eq' (y := m - l), toNat_sub' l m h]
+
+theorem bridge_spec (l m : BitVec w) (h : l.toNat ≤ m.toNat) (hm : m.toNat < w) :
+    specMask w l.toNat m.toNat = spec' l m := by
+  have := lt_pow w
+  have h1 : (wm1 w).toNat = w - 1 := by rw [wm1, BitVec.toNat_ofNat, Nat.mod_eq_of_lt (by omega)]
+  have h2 : (wm1 w - m).toNat = w - 1 - m.toNat :=
+    (BitVec.toNat_sub_of_le (BitVec.le_def.mpr (by omega))).trans (by rw [h1])
+  have h3 : (wm1 w - m + l).toNat = w - 1 - m.toNat + l.toNat := by
+    rw [BitVec.toNat_add, h2, Nat.mod_eq_of_lt (by omega)]
+  simp only [specMask, spec', BitVec.ushiftRight_eq', BitVec.shiftLeft_eq' (y := l), h3]
+
+/-! ### The word-level theorem, per width (bv_decide) -/
+
+/-- For positions `l ≤ m < w` and a value inside `[min, max]`: the generated mask is the
+specified one, the merged word agrees with the old word outside the field, and parsing the
+merged word returns the value. -/
+def WordOK (sg : Bool) (l m orig data : BitVec w) : Prop :=
+  mask' sg l m = spec' l m ∧
+  ((if sg then data.slt (min' sg l m) || (max' sg l m).slt data
+      else data.ult (min' sg l m) || (max' sg l m).ult data) = false →
+    extract' sg l m ((orig &&& ~~~(mask' sg l m)) ||| ((data <<< l) &&& mask' sg l m)) = data)
+
+theorem word8 (sg : Bool) (l m orig data : BitVec 8) (h1 : l ≤ m) (h2 : m ≤ 7#8) :
+    WordOK sg l m orig data := by
+  simp only [WordOK, mask', maskU', maskS', extract', spec', min', max', wm1, wm2, intMaxBV, intMinBV] at *
+  cases sg <;> simp only [if_true, if_false, Bool.false_eq_true] at * <;> bv_decide
+
+theorem word16 (sg : Bool) (l m orig data : BitVec 16) (h1 : l ≤ m) (h2 : m ≤ 15#16) :
+    WordOK sg l m orig data := by
+  simp only [WordOK, mask', maskU', maskS', extract', spec', min', max', wm1, wm2, intMaxBV, intMinBV] at *
+  cases sg <;> simp only [if_true, if_false, Bool.false_eq_true] at * <;> bv_decide
+
+theorem word32 (sg : Bool) (l m orig data : BitVec 32) (h1 : l ≤ m) (h2 : m ≤ 31#32) :
+    WordOK sg l m orig data := by
+  simp only [WordOK, mask', maskU', maskS', extract', spec', min', max', wm1, wm2, intMaxBV, intMinBV] at *
+  cases sg <;> simp only [if_true, if_false, Bool.false_eq_true] at * <;> bv_decide
+
+theorem word64 (sg : Bool) (l m orig data : BitVec 64) (h1 : l ≤ m) (h2 : m ≤ 63#64) :
+    WordOK sg l m orig data := by
+  simp only [WordOK, mask', maskU', maskS', extract', spec', min', max', wm1, wm2, intMaxBV, intMinBV] at *
+  cases sg <;> simp only [if_true, if_false, Bool.false_eq_true] at * <;> bv_decide
+
+/-- the four integer widths of the register types -/
+def IsIntWidth (w : Nat) : Prop := w = 8 ∨ w = 16 ∨ w = 32 ∨ w = 64
+
+theorem word_all (hw : IsIntWidth w) (sg : Bool) (l m orig data : BitVec w) (h1 : l.toNat ≤ m.toNat)
+    (h2 : m.toNat < w) : WordOK sg l m orig data := by
+  rcases hw with rfl | rfl | rfl | rfl
+  · exact word8 sg l m orig data (BitVec.le_def.mpr h1) (BitVec.le_def.mpr (by simp; omega))
+  · exact word16 sg l m orig data (BitVec.le_def.mpr h1) (BitVec.le_def.mpr (by simp; omega))
+  · exact word32 sg l m orig data (BitVec.le_def.mpr h1) (BitVec.le_def.mpr (by simp; omega))
+  · exact word64 sg l m orig data (BitVec.le_def.mpr h1) (BitVec.le_def.mpr (by simp; omega))
+
+/-! ### Macro-time `i64` min/max, cast `as ty` -/
+
+/-- when the macro-time arithmetic does not overflow, the casts of its results are the words
+`minW`/`maxW` -/
+def minMaxOk (w : Nat) (sg : Bool) (lsb msb : Nat) : Bool :=
+  match bfMinI64 sg lsb msb, bfMaxI64 sg lsb msb with
+  | some mn, some mx => BitVec.ofInt w mn == minW sg w lsb msb && BitVec.ofInt w mx == maxW sg w lsb msb
+  | _, _ => true
+
+theorem minMax8 : ∀ sg : Bool, ∀ msb < 8, ∀ lsb ≤ msb, minMaxOk 8 sg lsb msb = true := by decide +kernel
+theorem minMax16 : ∀ sg : Bool, ∀ msb < 16, ∀ lsb ≤ msb, minMaxOk 16 sg lsb msb = true := by decide +kernel
+theorem minMax32 : ∀ sg : Bool, ∀ msb < 32, ∀ lsb ≤ msb, minMaxOk 32 sg lsb msb = true := by decide +kernel
+theorem minMax64 : ∀ sg : Bool, ∀ msb < 64, ∀ lsb ≤ msb, minMaxOk 64 sg lsb msb = true := by decide +kernel
+
+theorem minMax_all (hw : IsIntWidth w) (sg : Bool) (lsb msb : Nat) (h : lsb ≤ msb) (hm : msb < w)
+    (mn mx : Int) (hmn : bfMinI64 sg lsb msb = some mn) (hmx : bfMaxI64 sg lsb msb = some mx) :
+    BitVec.ofInt w mn = minW sg w lsb msb ∧ BitVec.ofInt w mx = maxW sg w lsb msb := by
+  have key : minMaxOk w sg lsb msb = true := by
+    rcases hw with rfl | rfl | rfl | rfl
+    · exact minMax8 sg msb hm lsb h
+    · exact minMax16 sg msb hm lsb h
+    · exact minMax32 sg msb hm lsb h
+    · exact minMax64 sg msb hm lsb h
+  simpa [minMaxOk, hmn, hmx] using key
+
+/-- which declarations get through the macro (F-C20-3): everything up to 32 bit; for 64-bit
+types not the signed 64-bit-wide field and not unsigned fields of 63 or 64 bits. -/
+theorem compiles_iff (sg : Bool) (lsb msb : Nat) (h : lsb ≤ msb) (hm : msb < 64) :
+    ((bfMinI64 sg lsb msb).isSome ∧ (bfMaxI64 sg lsb msb).isSome) ↔
+      (if sg then msb - lsb < 63 else msb - lsb + 1 < 63) := by
+  have : ∀ sg : Bool, ∀ msb < 64, ∀ lsb ≤ msb,
+      decide ((bfMinI64 sg lsb msb).isSome ∧ (bfMaxI64 sg lsb msb).isSome) =
+      decide (if sg then msb - lsb < 63 else msb - lsb + 1 < 63) := by decide +kernel
+  exact decide_eq_decide.mp (this sg msb hm lsb h)
+
+/-! ### The model-level word theorem -/
+
+theorem bf_word (hw : IsIntWidth w) (sg : Bool) (lsb msb : Nat) (h : lsb ≤ msb) (hm : msb < w)
+    (mn mx : Int) (hmn : bfMinI64 sg lsb msb = some mn) (hmx : bfMaxI64 sg lsb msb = some mx)
+    (orig data : BitVec w) :
+    bfMask sg w lsb msb = specMask w lsb msb ∧
+    (bfOutOfRange sg data (BitVec.ofInt w mn) (BitVec.ofInt w mx) = false →
+      ∃ d, bfMaskedInt sg w lsb msb mn mx data = .ok d ∧
+        bfExtract sg w lsb msb (bfMerge sg w lsb msb orig d) = data ∧
+        bfMerge sg w lsb msb orig d &&& ~~~(specMask w lsb msb) = orig &&& ~~~(specMask w lsb msb)) := by
+  have hp := lt_pow w
+  obtain ⟨hmin, hmax⟩ := minMax_all hw sg lsb msb h hm mn mx hmn hmx
+  -- positions as words
+  have hl : (BitVec.ofNat w lsb).toNat = lsb := by rw [BitVec.toNat_ofNat, Nat.mod_eq_of_lt (by omega)]
+  have hmm : (BitVec.ofNat w msb).toNat = msb := by rw [BitVec.toNat_ofNat, Nat.mod_eq_of_lt (by omega)]
+  generalize hlv : BitVec.ofNat w lsb = l at hl
+  generalize hmv : BitVec.ofNat w msb = m at hmm
+  subst hl hmm
+  obtain ⟨hmask, hrt⟩ := word_all hw sg l m orig data h hm
+  refine ⟨by rw [bridge_mask sg l m hm, bridge_spec l m h hm]; exact hmask, fun hin => ?_⟩
+  have hd : bfMaskedInt sg w l.toNat m.toNat mn mx data =
+      .ok ((data <<< l.toNat) &&& bfMask sg w l.toNat m.toNat) := by
+    simp [bfMaskedInt, hin]
+  have hin' : (if sg then data.slt (min' sg l m) || (max' sg l m).slt data
+      else data.ult (min' sg l m) || (max' sg l m).ult data) = false := by
+    rw [hmin, hmax, bridge_min sg l m h, bridge_max sg l m h hm] at hin
+    simpa [bfOutOfRange] using hin
+  refine ⟨_, hd, ?_, ?_⟩
+  · rw [bridge_extract sg l m _ h hm, bfMerge, bridge_mask sg l m hm, ← BitVec.shiftLeft_eq']
+    exact hrt hin'
+  · rw [bfMerge, bridge_mask sg l m hm, bridge_spec l m h hm, hmask]
+    ext i hi
+    simp only [BitVec.getElem_and, BitVec.getElem_or, BitVec.getElem_not]
+    cases (spec' l m)[i] <;> simp
+
+/-! ### From words to bytes -/
+
+theorem intWidth_bytes (hw : IsIntWidth w) : 8 * (w / 8) = w ∧ 0 < w / 8 := by
+  rcases hw with rfl | rfl | rfl | rfl <;> decide
+
+theorem writeWordFront_exact (e : Endian) (size x : Nat) (dst : Bytes) (h : dst.length = size) :
+    writeWordFront e size x dst = wordBytes e size x := by
+  have hl := wordBytes_length e size x
+  simp only [writeWordFront]
+  rw [List.take_of_length_le (by omega), List.drop_of_length_le (by omega), List.append_nil]
+
+/-- reading back the bytes of a `w`-bit word -/
+theorem readWord_word (hw : IsIntWidth w) (e : Endian) (x : BitVec w) :
+    readWord e (w / 8) (wordBytes e (w / 8) x.toNat) = .ok x.toNat := by
+  rw [readWord_wordBytes, pow256, (intWidth_bytes hw).1, Nat.mod_eq_of_lt x.isLt]
+
+
+/-- The generated bit-field `write` followed by `read`, on the byte image. -/
+theorem bf_mem (hw : IsIntWidth w) (e : Endian) (sg : Bool) (lsb msb : Nat) (h : lsb ≤ msb) (hm : msb < w)
+    (mn mx : Int) (hmn : bfMinI64 sg lsb msb = some mn) (hmx : bfMaxI64 sg lsb msb = some mx)
+    (address : Nat) (ar : AccessRight) (memory : Bytes) (hin : address + w / 8 ≤ memory.length)
+    (data : BitVec w)
+    (hr : bfOutOfRange sg data (BitVec.ofInt w mn) (BitVec.ofInt w mx) = false) :
+    let r := bfReg e sg w lsb msb mn mx address (w / 8) ar
+    ∃ orig new : BitVec w, ∃ memory' : Bytes,
+      readWord e (w / 8) ((memory.drop address).take (w / 8)) = .ok orig.toNat ∧
+      new &&& ~~~(specMask w lsb msb) = orig &&& ~~~(specMask w lsb msb) ∧
+      memory' = memory.take address ++ wordBytes e (w / 8) new.toNat ++ memory.drop (address + w / 8) ∧
+      r.write data memory = .ok memory' ∧ r.read memory' = .ok data ∧
+      memory'.length = memory.length ∧
+      ∀ i, i < address ∨ address + w / 8 ≤ i → memory'[i]? = memory[i]? := by
+  intro r
+  have hb := intWidth_bytes hw
+  have hcur : ((memory.drop address).take (w / 8)).length = w / 8 := by
+    simp only [List.length_take, List.length_drop]; omega
+  -- the old word
+  obtain ⟨n, hn⟩ : ∃ n, readWord e (w / 8) ((memory.drop address).take (w / 8)) = .ok n := by
+    simp only [readWord, hcur, Nat.lt_irrefl, if_false]; exact ⟨_, rfl⟩
+  have hnlt : n < 2 ^ w := by
+    simp only [readWord, hcur, Nat.lt_irrefl, if_false, Res.ok.injEq] at hn
+    have hlen : (((memory.drop address).take (w / 8)).take (w / 8)).length = w / 8 := by
+      rw [List.take_of_length_le (by omega)]; exact hcur
+    have hpw : 2 ^ w = 256 ^ (w / 8) := by rw [pow256, hb.1]
+    rw [hpw, ← hn]
+    cases e
+    · have := fromLE_lt (((memory.drop address).take (w / 8)).take (w / 8)); rwa [hlen] at this
+    · have := fromLE_lt (((memory.drop address).take (w / 8)).take (w / 8)).reverse
+      rw [List.length_reverse, hlen] at this; exact this
+  have horig : (BitVec.ofNat w n).toNat = n := by rw [BitVec.toNat_ofNat, Nat.mod_eq_of_lt hnlt]
+  obtain ⟨_, hok⟩ := bf_word hw sg lsb msb h hm mn mx hmn hmx (BitVec.ofNat w n) data
+  obtain ⟨d, hd, hext, hiso⟩ := hok hr
+  let new := bfMerge sg w lsb msb (BitVec.ofNat w n) d
+  have hwl := wordBytes_length e (w / 8) new.toNat
+  refine ⟨BitVec.ofNat w n, new, _, by rw [horig]; exact hn, hiso, rfl, ?_, ?_,
+    spliced_length memory _ address (w / 8) hin hwl,
+    fun i hi => spliced_outside memory _ address (w / 8) i hin hwl hi⟩
+  · show bfWrite e sg w lsb msb mn mx address (w / 8) data memory = _
+    simp only [bfWrite, hd, slice_ok memory (Nat.le_add_right _ _) hin, Nat.add_sub_cancel_left, hn,
+      writeWordFront_exact e (w / 8) _ _ hcur]
+    rfl
+  · show Register.read r _ = _
+    have hlen' := spliced_length memory (wordBytes e (w / 8) new.toNat) address (w / 8) hin hwl
+    simp only [Register.read, Register.rangeEnd, r, bfReg]
+    rw [slice_ok _ (Nat.le_add_right _ _) (by omega), Nat.add_sub_cancel_left,
+      spliced_slice memory _ address (w / 8) hin hwl]
+    simp only [bfParse, readWord_word hw e new, BitVec.ofNat_toNat, BitVec.setWidth_eq]
+    exact congrArg Res.ok hext
+
+/-- a value outside `[min, max]` is refused by `masked_int`, hence by `serialize` and `write`,
+before the memory is even looked at. -/
+theorem bf_refused (e : Endian) (sg : Bool) (lsb msb : Nat) (mn mx : Int) (address len : Nat)
+    (ar : AccessRight) (memory : Bytes) (data : BitVec w)
+    (hr : bfOutOfRange sg data (BitVec.ofInt w mn) (BitVec.ofInt w mx) = true) :
+    let r := bfReg e sg w lsb msb mn mx address len ar
+    r.write data memory = .err .invalidRegisterData ∧ r.serialize data = .err .invalidRegisterData := by
+  intro r
+  have : bfMaskedInt sg w lsb msb mn mx data = .err .invalidRegisterData := by simp [bfMaskedInt, hr]
+  exact ⟨by show bfWrite .. = _; simp [bfWrite, this], by show bfSerialize .. = _; simp [bfSerialize, this]⟩
+
+/-! ### The range `[min, max]` read as integers -/
+
+theorem minmax_closed (sg : Bool) (lsb msb : Nat) (mn mx : Int)
+    (hmn : bfMinI64 sg lsb msb = some mn) (hmx : bfMaxI64 sg lsb msb = some mx) :
+    mn = (if sg then -(2 : Int) ^ (msb - lsb) else 0) ∧
+    mx = (if sg then (2 : Int) ^ (msb - lsb) - 1 else (2 : Int) ^ (msb - lsb + 1) - 1) := by
+  have hpos : ∀ k : Nat, (0 : Int) < 2 ^ k := fun k => Int.pow_pos (by decide)
+  cases sg
+  · simp only [bfMinI64, Bool.false_eq_true, if_false, Option.some.injEq] at hmn
+    simp only [bfMaxI64, Bool.false_eq_true, if_false, i64Min] at hmx
+    refine ⟨by simp [← hmn], ?_⟩
+    by_cases h1 : msb - lsb + 1 ≥ 64
+    · rw [if_pos h1] at hmx; cases hmx
+    · rw [if_neg h1] at hmx
+      by_cases h2 : msb - lsb + 1 = 63
+      · rw [if_pos h2, if_pos (by omega)] at hmx; cases hmx
+      · have := hpos (msb - lsb + 1)
+        rw [if_neg h2, if_neg (by omega)] at hmx
+        simp only [Option.some.injEq] at hmx
+        simp [← hmx]
+  · simp only [bfMinI64, if_true] at hmn
+    simp only [bfMaxI64, if_true] at hmx
+    have hI : i64Min = -(2 : Int) ^ 63 := rfl
+    by_cases h1 : msb - lsb ≥ 64
+    · simp only [if_pos h1] at hmn; cases hmn
+    · simp only [if_neg h1] at hmn hmx
+      by_cases h2 : msb - lsb = 63
+      · simp only [if_pos h2, if_true] at hmn; cases hmn
+      · have := hpos (msb - lsb)
+        simp only [if_neg h2] at hmn hmx
+        rw [if_neg (by rw [hI]; omega)] at hmn
+        rw [if_neg (by rw [hI]; omega)] at hmx
+        simp only [Option.some.injEq] at hmn hmx
+        simp [← hmn, ← hmx]
+
+/-- the range check of `masked_int`, read as integers -/
+theorem oor_iff (hw : IsIntWidth w) (sg : Bool) (lsb msb : Nat) (h : lsb ≤ msb) (hm : msb < w) (mn mx : Int)
+    (hmn : bfMinI64 sg lsb msb = some mn) (hmx : bfMaxI64 sg lsb msb = some mx) (data : BitVec w) :
+    bfOutOfRange sg data (BitVec.ofInt w mn) (BitVec.ofInt w mx) = false ↔
+      (if sg then mn ≤ data.toInt ∧ data.toInt ≤ mx else (data.toNat : Int) ≤ mx) := by
+  obtain ⟨h1, h2⟩ := minmax_closed sg lsb msb mn mx hmn hmx
+  have hpos : ∀ k : Nat, (0 : Int) < 2 ^ k := fun k => Int.pow_pos (by decide)
+  have hw0 : 0 < w := by rcases hw with rfl | rfl | rfl | rfl <;> decide
+  cases sg
+  · simp only [Bool.false_eq_true, if_false] at h1 h2 ⊢
+    subst h1
+    have hle : (2 : Int) ^ (msb - lsb + 1) ≤ 2 ^ w := by
+      exact_mod_cast Nat.pow_le_pow_right (by decide) (by omega)
+    have hmxn : (BitVec.ofInt w mx).toNat = mx.toNat := by
+      rw [BitVec.toNat_ofInt, Int.emod_eq_of_lt (by have := hpos (msb - lsb + 1); omega)
+        (by push_cast; have := hpos (msb - lsb + 1); omega)]
+    simp only [bfOutOfRange, Bool.false_eq_true, if_false, Bool.or_eq_false_iff]
+    have hz : data.ult 0#w = false := by
+      rw [← Bool.not_eq_true, BitVec.ult_iff_lt, BitVec.lt_def]; simp
+    have : ((BitVec.ofInt w mx).ult data = false) ↔ (data.toNat : Int) ≤ mx := by
+      rw [← Bool.not_eq_true, BitVec.ult_iff_lt, BitVec.lt_def, hmxn]
+      have := hpos (msb - lsb + 1); omega
+    simp [hz, this]
+  · simp only [if_true] at h1 h2 ⊢
+    have hle : (2 : Int) ^ (msb - lsb) ≤ 2 ^ (w - 1) := by
+      exact_mod_cast Nat.pow_le_pow_right (by decide) (by omega)
+    have hpw : (2 : Int) ^ w = 2 * 2 ^ (w - 1) := by
+      have : w = (w - 1) + 1 := by omega
+      conv => lhs; rw [this, Int.pow_succ]
+      omega
+    have hp1 := hpos (msb - lsb)
+    have hcast : ((2 ^ w : Nat) : Int) = 2 ^ w := by push_cast; rfl
+    have hmni : (BitVec.ofInt w mn).toInt = mn := by
+      rw [BitVec.toInt_ofInt, Int.bmod_eq_of_le (by rw [hcast]; omega) (by rw [hcast]; omega)]
+    have hmxi : (BitVec.ofInt w mx).toInt = mx := by
+      rw [BitVec.toInt_ofInt, Int.bmod_eq_of_le (by rw [hcast]; omega) (by rw [hcast]; omega)]
+    simp only [bfOutOfRange, if_true]
+    rw [Bool.or_eq_false_iff, ← Bool.not_eq_true, ← Bool.not_eq_true, BitVec.slt_iff_toInt_lt,
+      BitVec.slt_iff_toInt_lt, hmni, hmxi]
+    omega
+
 end CamVerif.Memory
